@@ -483,6 +483,17 @@ type hostFunc struct {
 // callSSA interprets a call to function fn with arguments args,
 // and lexical environment env, returning its result.
 func (i *interpreter) callSSA(caller *frame, callpos token.Pos, fn *ssa.Function, args []value, env []value) value {
+	if len(i.cfg.Summaries) > 0 && i.sub == nil && i.initMode == 0 {
+		if drop, ok := i.cfg.Summaries[fn.String()]; ok {
+			if v, ok := i.summarizeCall(caller, callpos, fn, args, env, drop); ok {
+				return v
+			}
+		}
+	}
+	return i.callSSAbody(caller, callpos, fn, args, env)
+}
+
+func (i *interpreter) callSSAbody(caller *frame, callpos token.Pos, fn *ssa.Function, args []value, env []value) value {
 	var g *gor
 	if caller != nil {
 		g = caller.g
